@@ -342,7 +342,13 @@ func (group *Group) delRtspPubSession(session *rtsp.PubSession) {
 func (group *Group) delPullSession(session base.IObject) {
 	Log.Debugf("[%s] [%s] del PullSession from group.", group.UniqueKey, session.UniqueKey())
 
+	// only a pull session that actually became the input of this group takes the input pipeline down with it.
+	// a pull that failed, or that finished connecting after another input had taken the stream, was never attached.
+	attached := group.pullSessionUniqueKey() != "" && group.pullSessionUniqueKey() == session.UniqueKey()
 	group.resetRelayPullSession()
+	if !attached {
+		return
+	}
 	group.delIn()
 }
 
